@@ -172,7 +172,9 @@ static RunPlan gen_plan(Rng& rng, int nrules, bool big) {
       s.buf = (int) rng.below(big ? 3 : NBUF); if (big && s.buf == 1) s.buf = 0;
       s.reply_at = rng.chance(1, 4) ? (int) rng.below(30) : -1; s.reply = rng.chance(1, 2) ? CALLBACK_ABORT : CALLBACK_ERROR;
       s.ext_i = rng.chance(1, 2) ? 42 : (int) rng.below(50); s.ext_off = rng.chance(1, 2) ? 5 : (int) rng.below(9); s.mdata = (int) rng.below(3); s.timeout = rng.chance(1, 3) ? 2 : 0;
-      if (rng.chance(1, 3)) s.ext_b = (int) rng.below(2); if (rng.chance(1, 4)) s.ext_f = (int) rng.below(2); if (rng.chance(1, 4)) s.ext_s = (int) rng.below(2);
+      if (rng.chance(1, 3)) s.ext_b = (int) rng.below(2);
+      if (rng.chance(1, 4)) s.ext_f = (int) rng.below(2);
+      if (rng.chance(1, 4)) s.ext_s = (int) rng.below(2);
       tp.scans.push_back(s);
     }
     rp.tasks.push_back(tp);
